@@ -50,11 +50,12 @@ INVS = ["TypeOK", "WordOK", "ClosedOnlyIfCreated", "DestroyedAtZero", "RetryKeep
 ACTIONS = ["TConnect", "TRequests", "TJob", "TApp", "CbOp", "CbRet", "Hnc0", "Hnc1", "Hnc2", "Hnc3", "Hnc4", "Hnc6",
            "Disc0", "Disc2", "Disc9", "Unref0", "Unref1", "Unref9", "Disp0", "Disp1", "Disp2", "Disp3", "Disp8", "Disp9",
            "Job0", "Job9", "Des0", "Des1", "Des2", "Des8", "Des9"]
+SVCOPS = ["SvcRef", "SvcUnref"]
 
 
 def mc_cfg(ctx, name, fix, skip, top, body, extra_inv=()):
     s = lambda xs: ", ".join(str(x) for x in sorted(set(xs)))
-    return ctx.cfg(name, "CONSTANTS MaxConn = 2  MaxBody = %d  MaxTop = %d  MaxRetry = 1\nCONSTANTS Fix = {%s}  Skip = {%s}\n"
+    return ctx.cfg(name, "CONSTANTS MaxConn = 2  MaxBody = %d  MaxTop = %d  MaxRetry = 1  MaxSvcRef = 1\nCONSTANTS Fix = {%s}  Skip = {%s}\n"
                    "SPECIFICATION MCSpec\n%sCHECK_DEADLOCK FALSE\n" % (body, top, s(fix), s(skip),
                                                                      "".join("INVARIANT %s\n" % i for i in list(INVS) + list(extra_inv))))
 
@@ -115,6 +116,7 @@ def run(ctx):
                                                 ["RcAgrees", "SvcLifetime"] if not mstill else []),
                         workers=4, timeout=1500)
     ctx.check_vacuity(r, ACTIONS)
+    ctx.cov["model_invariants"] = INVS
     if not q:
         # deeper callback bodies with fewer main-loop moves
         ctx.model_check("IpcLifeMC.tla", mc_cfg(ctx, "IpcLifeMC_body2.cfg", mfix, mstill, 4, 2), workers=4, timeout=1500)
@@ -125,7 +127,7 @@ def run(ctx):
             skip = [x for x in mstill if x not in (2, 3)]
         if k == 3:            # let the dispatcher hold its reference (repair 2) so that the run reaches the second delivery
             fix = sorted(set(mfix) | {2})
-        cfg = mc_cfg(ctx, "IpcLifeMC_kf%d.cfg" % k, fix, skip, 5, 1)
+        cfg = mc_cfg(ctx, "IpcLifeMC_kf%d.cfg" % k, fix, skip, 4, 1)
         rr = ctx._tlc("IpcLifeMC.tla", cfg, 4, timeout=900, jvm=("-Xmx8g",))
         rr.parse()
         if not rr.violated:
@@ -147,7 +149,7 @@ def run(ctx):
     # spec -> code: random walks of the closed model (the application's and the environment's choices), executed on the
     # real library on both transports
     import json
-    gcfg = ctx.cfg("IpcLifeGen_sim.cfg", "CONSTANTS MaxConn = 3  MaxBody = 2  MaxTop = 7  MaxRetry = 2\nCONSTANTS Fix = {%s}  Skip = {%s}\n"
+    gcfg = ctx.cfg("IpcLifeGen_sim.cfg", "CONSTANTS MaxConn = 3  MaxBody = 2  MaxTop = 7  MaxRetry = 2  MaxSvcRef = 2\nCONSTANTS Fix = {%s}  Skip = {%s}\n"
                    "SPECIFICATION GenSpec\nCONSTRAINT Emit\nCHECK_DEADLOCK FALSE\n" % (", ".join(map(str, mfix)), ", ".join(map(str, mstill))))
     seen = set()
     for rnd in range(2 if q else 12):
